@@ -9,7 +9,8 @@
                                                        as the generator leaves it
     Drx.Lscr.genJs    : Script → R Str × Script        generate_js_code, likewise
         pure parts: `lingoText`, `jsText : Script → R Str`; `afterLingoScript`, `afterJsScript : Script → Script`;
-        per node: `lingo noParen node indent`, `js factoryMethod node indent : R Name`; `afterLingo`, `afterJs : Node → Node`.
+        per node: `lingo noParen node indent`, `js factoryMethod putTarget node indent : R Name` (putTarget = SpAssignOperation.target_js);
+        `afterLingo`, `afterJs : Node → Node`.
 
     Text is `Str = List Char`. `Name` = Python `str | int` (`Name.s`, `Name.i`).
     `Script`  { properties globalVars : List Str, functions : List FuncDef, scrNum contScrNum : Int, factoryName : Str }
@@ -32,12 +33,13 @@
       loadList name pos operands                    LoadListOperation (operands in pop order: last argument first)
       toList pos operand / toDict pos operand       ToListOperation / ToDictionaryOperation
       stmt pos code                                 Statement
-      callFn name pos params useParen inTell withResult     CallFunction
+      callFn name pos params useParen inTell withResult receiver   CallFunction (receiver = node popped by opcode 0x58, else none)
       callMethod name pos obj params                CallMethod
-      repeat_ pos endPos cond stmts type start varname sign  RepeatOperation (`end` is `cond.right`, not stored)
+      repeat_ pos endPos cond stmts type start varname sign loopVar   RepeatOperation (`end` is `cond.right`, not stored;
+                                                    loopVar = Python `variable`)
       ifThen pos cond ifs elses                     IfThenOperation
       jump pos addr / jz pos cond addr              JumpOperation / JzOperation
-      tell pos operand stmts                        WindowTellOperation
+      tell pos operand stmts closed                 WindowTellOperation
 
   Files: Lscr/PyStr (Python str semantics) · Lscr/Float (repr(float), int→float) · Lscr/Ast · Lscr/Const (constants, C11) ·
   Lscr/Tables (generated tables) · Lscr/GenLingo · Lscr/Flow (jump/tell/condition/loop reconstruction) · Lscr/Parse
